@@ -118,9 +118,9 @@ Record variant := mkV {
   v_recover_own : bool;    (* 290ab18: recover deletes payload[key] only if it is the creator's own entry *)
   v_save_rehome : bool;    (* b9905fa: save sets e.gen = c.currentGeneration *)
   v_release_fixed : bool;  (* 9ff7c19: ReleaseBuckets walks the released indices from the highest down *)
-  v_add_locked : bool      (* save does gen.size.Add(size) before c.mu.Unlock() *)
+  v_add_locked : bool      (* save does gen.size.Add(size) before c.mu.Unlock() (repair after the hook commit 64b20cb) *)
 }.
-Definition repaired := mkV true true true false.
+Definition repaired := mkV true true true true.
 
 (* Cache.recover: `if c.payload[key] == e { delete(c.payload, key) }` (before 290ab18: delete by key,
    whatever entry is there now), then wg.Done() on the creator's own (still wg != nil, i.e. abandoned) entry *)
@@ -359,24 +359,19 @@ Definition init (lim mg es : Z) : state :=
   mkS [] [] [] [mkG 0 false] [0%nat] [] 0%nat lim mg es [] None.
 
 (* ------------------------------------------------------------------ domain of the accounting theorems:
-   a monitor evaluated before a step. Two patterns are excluded:
+   a monitor evaluated before a step. One pattern is excluded:
    - Release of a cache while one of its entries is still loading, i.e. a creator is inside its
-     loader or between loader and save (the callers of a cache hold
-     the fraction's use lock; Release comes after they are gone). A lookup STARTED on a released
-     cache is not executable at all (step = None: the Go code panics on the nil map).
-   - CleanEmptyGenerations dropping a generation to which a save has not yet done its size.Add
-     (the few instructions between save's unlock and gen.size.Add). *)
+     loader or between loader and save (the callers of a cache hold the fraction's use lock; Release
+     comes after they are gone). A lookup STARTED on a released cache is not executable at all
+     (step = None: the Go code panics on the nil map). *)
 Definition thread_pc (st : state) (t : nat) : option pc :=
   match nth_error (threads st) t with Some th => Some (tpc th) | None => None end.
 
-Definition pending_to (g : nat) (th : thread) : bool :=
-  match tpc th with PAdd g' s _ => Nat.eqb g' g && negb (s =? 0) | _ => false end.
 Definition loading_in (c : nat) (e : entry) : bool :=
   eattached e && Nat.eqb (ecache e) c && match estat e with ELoading => true | _ => false end.
 
 Definition racy (st : state) (l : label) : bool :=
   match l with
-  | LGcGens => existsb (fun g => (gsz g (gens st) =? 0) && existsb (pending_to g) (threads st)) (removelast (listed st))
   | LRelease c => existsb (loading_in c) (entries st)
   | _ => false
   end.
